@@ -171,6 +171,19 @@ impl<F: Float> FFT<F> {
         if a.is_empty() || b.is_empty() {
             return;
         }
+        // Both operands are packed into one transform, so the rounding error grows with the longer one. Keep the
+        // lengths comparable: a much longer operand is multiplied block by block (the product is additive in it).
+        let (short, long) = if a.len() <= b.len() { (a, b) } else { (b, a) };
+        if long.len() > 2 * short.len() {
+            for (k, block) in long.chunks(short.len()).enumerate() {
+                let offset = k * short.len();
+                if offset >= res.len() {
+                    break;
+                }
+                self.multiply_into(short, block, &mut res[offset..]);
+            }
+            return;
+        }
         let mut n = 2;
         while n < a.len() + b.len() - 1 {
             n *= 2;
